@@ -81,6 +81,9 @@ func accessPath(v ssa.Value) string {
 				return fmt.Sprintf("%s[%d]", p, k)
 			}
 		}
+		if p := accessPath(t.X); p != "" {
+			return fmt.Sprintf("%s[%s@%p]", p, t.Index.Name(), t.Index) // same index value => same element
+		}
 		return fmt.Sprintf("%s@%p", v.Name(), v)
 	case *ssa.Convert:
 		if p := accessPath(t.X); p != "" {
@@ -471,6 +474,9 @@ func checkUnwrap(c *core.Ctx, funcs []*ssa.Function) {
 					if returnsKindGuard(v, want, use.Block()) {
 						continue
 					}
+					if builtinArgs.arityDead(fn, call.Block()) || builtinArgs.forwarded(allFuncs, fn, v, want) {
+						continue
+					}
 					if paramGuardedByCallers(prog, allFuncs, builtinArgs, fn, v, want) {
 						continue
 					}
@@ -484,6 +490,7 @@ func checkUnwrap(c *core.Ctx, funcs []*ssa.Function) {
 			}
 		}
 	}
+	builtinArgs.checkArgIndices(c)
 	c.Extra("unwrap_sites", nSites)
 	c.Floor("sim.unwrap", 300)
 }
@@ -654,7 +661,19 @@ func returnsKindGuard(v ssa.Value, want string, b *ssa.BasicBlock) bool {
 				return false
 			}
 			for _, e := range core.ErrorResults(call) {
-				if !core.DominatedByNil(e, b, true) {
+				if core.DominatedByNil(e, b, true) {
+					continue
+				}
+				// the error is merged with sibling errors in a phi that is tested
+				viaPhi := false
+				if e.Referrers() != nil {
+					for _, r := range *e.Referrers() {
+						if ph, ok := r.(*ssa.Phi); ok && core.DominatedByNil(ph, b, true) {
+							viaPhi = true
+						}
+					}
+				}
+				if !viaPhi {
 					return false
 				}
 			}
